@@ -1,0 +1,185 @@
+//go:build verif
+
+package json
+
+// Contracts for govc (see /verif/DESIGN.md; oracle: /verif/spec/30_json_automaton.gvs).
+// Comment-only file.
+
+// Every step function refines the reference transducer: one contract for the
+// function type, instantiated with fn := the function under proof.
+//@ functype stepFunc(s, c)
+//@   requires scannerShape(s) && 1 <= s.index && c == s.data[s.index-1]
+//@   requires s.unfinishedLiteral == (litOpen(s) && unfRef(fn))
+//@   requires inScalar(fn) ==> litOpen(s)
+//@   requires inUEscape(fn) ==> (len(s.returnToStep.vals) == 1 && s.returnToStep.vals[0] == stateInString)
+//@   requires !inUEscape(fn) ==> len(s.returnToStep.vals) == 0
+//@   requires (fn == stateFoundArrayItemBeginOrEmpty || fn == stateAfterArrayItem) ==> stkDepth(s) >= 1
+//@   maypanic
+//@   modifies s.step, s.finds, s.finds[*], s.unfinishedLiteral, s.returnToStep.vals, s.returnToStep.vals[*]
+//@   ensures panics <==> dNext(fn, c, s.allowTrailingNonSpaceCharacters, stkTop(s), stkBelow(s), stkDepth(s)) == REJECT
+//@   ensures normal ==> (let n = dNext(fn, c, s.allowTrailingNonSpaceCharacters, stkTop(s), stkBelow(s), stkDepth(s)) in
+//@              (n == SELF ==> (s.step == old(s.step) || s.step == fn))
+//@           && (n != SELF ==> s.step == n)
+//@           && (let m = (n == SELF ? fn : n) in
+//@                 s.unfinishedLiteral == (litOpen(s) && unfRef(m))
+//@              && (inUEscape(m) ==> (len(s.returnToStep.vals) == 1 && s.returnToStep.vals[0] == stateInString))
+//@              && (!inUEscape(m) ==> len(s.returnToStep.vals) == 0)))
+//@   ensures normal ==> findsAppended(s, old(len(s.finds)), dEmits(fn, c, s.allowTrailingNonSpaceCharacters, stkTop(s), stkBelow(s), stkDepth(s)))
+//@   ensures normal ==> (forall i :: 0 <= i && i < old(len(s.finds)) ==> s.finds[i] == old(s.finds[i]))
+//@   ensures panics ==> typeis(pv, errors.DocumentError) && unbox(pv, errors.DocumentError).code == 301 && unbox(pv, errors.DocumentError).index == s.index - 1 && unbox(pv, errors.DocumentError).hasIndex
+
+//@ func (*scanner).found(lexType)
+//@   props C05 C06
+//@   requires s != nil
+//@   nopanic
+//@   modifies s.finds, s.finds[*]
+//@   ensures len(s.finds) == old(len(s.finds)) + 1 && s.finds[len(s.finds)-1] == lexType
+//@   ensures s.finds.$arr == old(s.finds.$arr) || fresh(s.finds)
+//@   ensures forall i :: 0 <= i && i < old(len(s.finds)) ==> s.finds[i] == old(s.finds[i])
+
+//@ func (*scanner).newDocumentErrorAtCharacter(context)
+//@   props C05 C07 C17
+//@   requires scannerShape(s) && 1 <= s.index
+//@   nopanic
+//@   ensures result.code == 301 && result.index == s.index - 1 && result.hasIndex && result.file == s.file && !result.prepared
+
+//@ func stateFoundRootValue(s, c)
+//@   props C05 C06
+//@   refines stepFunc
+
+//@ func stateFoundObjectKeyBeginOrEmpty(s, c)
+//@   props C05 C06
+//@   refines stepFunc
+
+//@ func stateFoundObjectKeyBegin(s, c)
+//@   props C05 C06
+//@   refines stepFunc
+
+//@ func stateFoundObjectValueBegin(s, c)
+//@   props C05 C06
+//@   refines stepFunc
+
+//@ func stateFoundArrayItemBeginOrEmpty(s, c)
+//@   props C05 C06
+//@   refines stepFunc
+
+//@ func stateFoundArrayItemBegin(s, c)
+//@   props C05 C06
+//@   refines stepFunc
+
+//@ func stateEndValue(s, c)
+//@   props C05 C06
+//@   refines stepFunc
+
+//@ func stateAfterObjectKey(s, c)
+//@   props C05 C06
+//@   refines stepFunc
+
+//@ func stateAfterObjectValue(s, c)
+//@   props C05 C06
+//@   refines stepFunc
+
+//@ func stateAfterArrayItem(s, c)
+//@   props C05 C06
+//@   refines stepFunc
+
+//@ func stateEndTop(s, c)
+//@   props C05 C06
+//@   refines stepFunc
+
+//@ func stateInString(s, c)
+//@   props C05 C06
+//@   refines stepFunc
+
+//@ func stateInStringEsc(s, c)
+//@   props C05 C06
+//@   refines stepFunc
+
+//@ func stateInStringEscU(s, c)
+//@   props C05 C06
+//@   refines stepFunc
+
+//@ func stateInStringEscU1(s, c)
+//@   props C05 C06
+//@   refines stepFunc
+
+//@ func stateInStringEscU12(s, c)
+//@   props C05 C06
+//@   refines stepFunc
+
+//@ func stateInStringEscU123(s, c)
+//@   props C05 C06
+//@   refines stepFunc
+
+//@ func stateNeg(s, c)
+//@   props C05 C06
+//@   refines stepFunc
+
+//@ func state1(s, c)
+//@   props C05 C06
+//@   refines stepFunc
+
+//@ func state0(s, c)
+//@   props C05 C06
+//@   refines stepFunc
+
+//@ func stateDot(s, c)
+//@   props C05 C06
+//@   refines stepFunc
+
+//@ func stateDot0(s, c)
+//@   props C05 C06
+//@   refines stepFunc
+
+//@ func stateE(s, c)
+//@   props C05 C06
+//@   refines stepFunc
+
+//@ func stateESign(s, c)
+//@   props C05 C06
+//@   refines stepFunc
+
+//@ func stateE0(s, c)
+//@   props C05 C06
+//@   refines stepFunc
+
+//@ func stateT(s, c)
+//@   props C05 C06
+//@   refines stepFunc
+
+//@ func stateTr(s, c)
+//@   props C05 C06
+//@   refines stepFunc
+
+//@ func stateTru(s, c)
+//@   props C05 C06
+//@   refines stepFunc
+
+//@ func stateF(s, c)
+//@   props C05 C06
+//@   refines stepFunc
+
+//@ func stateFa(s, c)
+//@   props C05 C06
+//@   refines stepFunc
+
+//@ func stateFal(s, c)
+//@   props C05 C06
+//@   refines stepFunc
+
+//@ func stateFals(s, c)
+//@   props C05 C06
+//@   refines stepFunc
+
+//@ func stateN(s, c)
+//@   props C05 C06
+//@   refines stepFunc
+
+//@ func stateNu(s, c)
+//@   props C05 C06
+//@   refines stepFunc
+
+//@ func stateNul(s, c)
+//@   props C05 C06
+//@   refines stepFunc
+
